@@ -4,6 +4,8 @@ import ZvbiModel.Export.Spec
 import ZvbiModel.Export.Lemmas
 import ZvbiModel.Export.LemmasRender
 import ZvbiModel.Export.LemmasPrint
+import ZvbiModel.Export.LemmasText
+import ZvbiModel.Export.LemmasEq
 /-!
 # C16 - export and rendering are faithful, bounded and independent of the output target
 
@@ -360,6 +362,11 @@ theorem print_region_exact_repaired (cfg : Cfg) (hE : cfg.printE2big = true) : p
   obtain ⟨e, he, ho⟩ := printRows_sound hE rows [] out h
   rw [he, ho]; simp
 
+/-- For the tree as it is now (F27a repaired in /repo, 1b80cb3): whatever `vbi_print_page_region` returns as
+success is exactly the table text of the region; a buffer that is too small makes it fail. -/
+theorem print_region_sound : print_region_exact_small_buffer_stmt currentCfg :=
+  print_region_exact_repaired currentCfg (by decide)
+
 example : printRows currentCfg (fun u => some [u]) 10 [[{ unicode := 0x41, size := 0 }], [{ unicode := 0x42, size := 6 }]] [] = .ok (some [0x41, 0x0A, 0x20]) := by
   rfl
 
@@ -440,11 +447,39 @@ theorem render_cc_in_rectangle (pg : Page) (ct S col row w h : Nat) (cells : Lis
 example : (vtRuns { wideClip := true, nullGuard := true } [] 24 1 true true 0
     [[(0, { unicode := 0x41, size := 0 }), (1, { unicode := 0x42, size := 1 })]]).length = 20 := by decide
 
-/-- The part of `region_equals_full` that is proved: what a character draws does not depend on where the
-region starts - the runs of a cell drawn at canvas origin `o + d` are the runs drawn at origin `o`,
-shifted by `d` (same source cell, line, kind and size).  The last-write-wins comparison of whole
-canvases (`Spec.region_equals_full_stmt`) is left to the oracle on the real code. -/
-theorem region_runs_translate_partial (S ct cw ch o d idx kind s : Nat) :
+/-- `region_equals_full`: for a region that does not cut a double-width / double-size character (no
+OVER_TOP / OVER_BOTTOM cell in its first column, no wide character in its last column) every byte of the
+region rectangle ends up with the same value - same source character, same line of the cell, same kind and
+size, same byte of the glyph row, last write wins - as the corresponding byte of the full-page rendering;
+for every page, region, pixel size, stride (multiple of the pixel size, >= the rectangle width), reveal /
+flash setting, in every configuration with the F14 repair. -/
+theorem region_equals_full_repaired (cfg : Cfg) (hfix : cfg.wideClip = true) : region_equals_full_stmt cfg :=
+  region_equals_full_core cfg hfix
+
+/-- `region_equals_full` for the tree as it is now. -/
+theorem region_equals_full : region_equals_full_stmt currentCfg := region_equals_full_core currentCfg (by decide)
+
+/-- Pixel for pixel: with the glyph bitmaps / pens as an arbitrary function `glyph` of the `vbi_char`, what
+was drawn and where inside the character, the region canvas holds on the whole rectangle the values the
+full-page canvas holds at the corresponding place (and is untouched where the full page is untouched). -/
+theorem region_pixels_equal_full (glyph : Cell → Nat → Nat → Nat → Nat → Nat)
+    (pg : Page) (ct S col row w h : Nat) (reveal flashOn : Bool) (cells : List (List (Nat × Cell))) (rr fr : List Run)
+    (hct : 0 < ct) (hd : ct ∣ S) (hS : w * 12 * ct ≤ S) (hcol : col + w ≤ pg.columns) (hrow : row + h ≤ pg.rows)
+    (hc : regionCells pg col row w h = .ok cells) (hnc : NotCut cells)
+    (hrr : drawVt currentCfg pg ct (some S) col row w h reveal flashOn = .ok rr)
+    (hfr : drawVt currentCfg pg ct none 0 0 pg.columns pg.rows reveal flashOn = .ok fr)
+    (line b : Nat) (hl : line < h * 10) (hb : b < w * 12 * ct) :
+    renderedAt glyph pg rr (line * S + b) =
+      renderedAt glyph pg fr ((row * 10 + line) * (pg.columns * 12 * ct) + col * 12 * ct + b) := by
+  unfold renderedAt
+  rw [region_equals_full pg ct S col row w h reveal flashOn cells rr fr hct hd hS hcol hrow hc hnc hrr hfr line b hl hb]
+
+example : finalAt (vtRuns currentCfg [] 24 1 true true 0
+    [[(0, { unicode := 0x41, size := 1 }), (1, { unicode := 0x41, size := 4 })]]) 13 = some (0, 0, 0, 1, 13) := by decide
+
+/-- What a character draws does not depend on where the region starts: the runs of a cell drawn at canvas
+origin `o + d` are the runs drawn at origin `o`, shifted by `d`. -/
+theorem region_runs_translate (S ct cw ch o d idx kind s : Nat) :
     cellRuns S ct cw ch (o + d) idx kind s = (cellRuns S ct cw ch o idx kind s).map (fun r => { r with start := r.start + d }) := by
   unfold cellRuns
   rw [List.map_map]
@@ -455,5 +490,56 @@ theorem region_runs_translate_partial (S ct cw ch o d idx kind s : Nat) :
   omega
 
 example : (cellRuns 48 4 12 10 100 7 0 0).head? = some { start := 100, len := 48, cell := 7, dy := 0, kind := 0, size := 0 } := by decide
+
+/-! ## the text export module (exp-txt.c), an exporter over the write layer -/
+
+/-- `text_export_exact`, no terminal codes (`control=0`): for every page whose characters (or else the space)
+convert to 1..32 bytes - all fixed-width encodings and UTF-8 - the module runs to the end and its output is
+exactly the page's characters row by row, each row closed by a line feed: printable characters as they
+are, block graphics replaced by the `gfx_chr` option, anything else by a space, characters not
+representable in the target encoding by a space; and all four targets deliver these bytes. -/
+theorem text_export_exact (cfg : Cfg) (conv : Nat → Option Bytes) (gfx : Nat) (pg : Page)
+    (cells : List (List (Nat × Cell))) (e : Bytes) (hA : AtFits cfg conv) (hF : ConvFits cfg conv 32)
+    (hc : regionCells pg 0 0 pg.columns pg.rows = .ok cells) (hne : cells ≠ [])
+    (ht : plainText cfg conv gfx (cells.map (·.map (·.2))) = some e) :
+    ∃ ops, textOps cfg conv 0 gfx pg = .ok (ops, true) ∧ output ops = e ∧
+      (∀ user, (exportMem cfg .unlimited user ops).ret = some e.length) ∧
+      (e ≠ [] → (exportAlloc cfg .unlimited ops).data = some e) ∧
+      (exportStdio cfg .unlimited ops).sink = some e ∧ (exportFile cfg .unlimited ops).sink = some e := by
+  obtain ⟨ops, hops, hout⟩ := textRowsOps_plain (gfx := gfx) (cm := pg.colorMap) hA hF (cells.map (·.map (·.2))) cellOnes e
+    (by simpa using hne) ht
+  refine ⟨ops, by simp [textOps, hc, hops], hout, ?_, ?_, ?_, ?_⟩
+  · intro user; have := (targets_agree cfg user ops).1; rw [hout] at this; exact this
+  · have := (targets_agree cfg none ops).2.2.1; rw [hout] at this; exact this
+  · have := (targets_agree cfg none ops).2.2.2.1.2; rw [hout] at this; exact this
+  · have := (targets_agree cfg none ops).2.2.2.2.2; rw [hout] at this; exact this
+
+/-- `text_export_exact` with terminal codes (`control=1` ANSI, `control=2` VT200): the output is, row by row, for
+every cell that is not skipped (OVER_TOP / OVER_BOTTOM after a size change) its control sequence followed by its
+character (same substitutions as above), rows separated by a line feed, closed by ESC [ m LF; the control
+sequence `ctlSeq` (at most 21 bytes, so that every character of up to 11 bytes fits the 32-byte buffer) is the
+model's transcription of print_char and is tied to the code by the correspondence check only. -/
+theorem text_export_control_exact (cfg : Cfg) (conv : Nat → Option Bytes) (term gfx : Nat) (pg : Page)
+    (cells : List (List (Nat × Cell))) (e : Bytes) (hterm : 0 < term) (hA : AtFits cfg conv) (hF : ConvFits cfg conv 11)
+    (hc : regionCells pg 0 0 pg.columns pg.rows = .ok cells) (hne : cells ≠ [])
+    (ht : ctlText cfg conv term gfx pg.colorMap cellOnes (cells.map (·.map (·.2))) = some e) :
+    ∃ ops, textOps cfg conv term gfx pg = .ok (ops, true) ∧ output ops = e ∧
+      (∀ user, (exportMem cfg .unlimited user ops).ret = some e.length) ∧
+      (exportStdio cfg .unlimited ops).sink = some e ∧ (exportFile cfg .unlimited ops).sink = some e := by
+  obtain ⟨ops, hops, hout⟩ := textRowsOps_ctl (gfx := gfx) (cm := pg.colorMap) hterm hA hF (cells.map (·.map (·.2))) cellOnes e
+    (by simpa using hne) ht
+  refine ⟨ops, by simp [textOps, hc, hops], hout, ?_, ?_, ?_⟩
+  · intro user; have := (targets_agree cfg user ops).1; rw [hout] at this; exact this
+  · have := (targets_agree cfg none ops).2.2.2.1.2; rw [hout] at this; exact this
+  · have := (targets_agree cfg none ops).2.2.2.2.2; rw [hout] at this; exact this
+
+/-- every control sequence is short and made of bytes: no overflow of the module's 32-byte buffer -/
+theorem text_control_sequence_bounded (term : Nat) (cm : List Nat) (old this : Cell) (ctl : Bytes)
+    (h : ctlSeq term cm old this = .ok (some ctl)) : ctl.length ≤ 21 ∧ ∀ b ∈ ctl, b < 256 :=
+  ⟨ctlSeq_len h, ctlSeq_bytes h⟩
+
+example : (textOps currentCfg (fun u => if u < 256 then some [u] else none) 0 35
+    { rows := 1, columns := 2, text := [{ unicode := 0x41, size := 0 }, { unicode := 0xEE21, size := 0 }], drcs := [] }).toOption
+    = some ([.putc 0x41, .putc 35, .putc 0x0A], true) := by rfl
 
 end Zvbi.Props.C16
